@@ -135,7 +135,15 @@ def one_network(M, rec, rng, g, desc, built, tier):
         keys = list(dict.fromkeys(keys))
         case_p = dict(case0, pars=pars, engine=st, symbolic_parameters=[list(k_) for k_ in keys])
         try:
-            cc = CC.CompileCase(M, rng, desc, pars, st, keys, {}, own_symbols=True)
+            # own symbols of the engine, or symbols supplied by the user with some controls / disturbances
+            # given as plain numbers (then constants of the function)
+            own = rng.random() < 0.5
+            fx = None
+            if not own:
+                _r, fx = g.values(desc, allow_inf=False)
+            cc = CC.CompileCase(M, rng, desc, pars, st, keys, {}, own_symbols=own, fixed_from=fx, fixed_prob=0.6)
+            if cc.fixed:
+                rec.count("symbolic_cases_with_variables_supplied_as_numbers")
         except Exception as e:
             _exc(rec, "step with symbolic parameters", st, e, case_p)
             continue
